@@ -143,11 +143,12 @@ def lean_stage(prop, tier, log):
         names = [t['name'] for t in st.obligations]
         if names:
             # module by module, so that one module that no longer builds only takes its own theorems with it
-            axioms, outs = {}, []
+            axioms, outs, module_logs = {}, [], []
             for m in modules:
                 if not st.build_ok:
-                    rc_m, _ = run_cmd(['lake', 'build', m], cwd=LEAN_DIR)
+                    rc_m, out_m = run_cmd(['lake', 'build', m], cwd=LEAN_DIR)
                     if rc_m != 0:
+                        module_logs.append(out_m)
                         continue
                 audit_src = 'import %s\n' % m + ''.join('#print axioms %s\n' % n for n in names)
                 fd, audit_path = tempfile.mkstemp(suffix='.lean', prefix='Audit_%s_' % prop, dir=LEAN_DIR)
@@ -160,9 +161,17 @@ def lean_stage(prop, tier, log):
                 outs.append(out)
                 axioms.update(parse_axioms(out))
             out = st.build_log + '\n'.join(outs)
+            failing = failing_theorems(st.build_log + ''.join(module_logs))
             for n in names:
                 if n not in axioms:
-                    st.broken.append({'name': n, 'why': 'theorem missing or does not check: ' + first_error(out, n)})
+                    short = n.split('.')[-1]
+                    if short in failing:
+                        why = 'does not check against the current source: ' + failing[short]
+                    elif failing:
+                        why = 'not checked: its module no longer builds (failing there: %s)' % ', '.join(sorted(failing)[:4])
+                    else:
+                        why = 'theorem missing or does not check: ' + first_error(out, n)
+                    st.broken.append({'name': n, 'why': why, 'primary': short in failing})
                 elif not set(axioms[n]) <= ALLOWED_AXIOMS:
                     st.broken.append({'name': n, 'why': 'depends on axioms %s' % sorted(set(axioms[n]) - ALLOWED_AXIOMS)})
                 else:
@@ -177,6 +186,29 @@ def lean_stage(prop, tier, log):
     log('lean: build_ok=%s driver_ok=%s obligations=%d discharged=%d broken=%d live_error=%s' % (
         st.build_ok, st.driver_ok, len(st.obligations), len(st.discharged), len(st.broken), st.live_error))
     return st
+
+
+def failing_theorems(log):
+    """{theorem name: first error line} for the `error: File.lean:LINE:COL: …` lines of a lake log: the declaration that
+    encloses each reported position"""
+    res = {}
+    for m in re.finditer(r'error: (\S+?\.lean):(\d+):\d+: (.*)', log):
+        path, line, msg = m.group(1), int(m.group(2)), m.group(3)
+        full = path if os.path.isabs(path) else os.path.join(LEAN_DIR, path)
+        try:
+            with open(full) as f:
+                src = f.read().split('\n')
+        except OSError:
+            continue
+        name = None
+        for k in range(min(line, len(src)) - 1, -1, -1):
+            mm = re.match(r'\s*(?:@\[[^\]]*\]\s*)?(?:private\s+)?(?:theorem|lemma|example|def|instance)\s+([\w.\']+)?', src[k])
+            if mm:
+                name = mm.group(1) or 'example'
+                break
+        if name and name not in res:
+            res[name] = msg[:200]
+    return res
 
 
 def parse_axioms(out):
@@ -347,7 +379,7 @@ def finish(report, stage, findings_probe=None, search=None):
             broken.append({'what': 'lake build failed', 'detail': stage.build_log[-2000:]})
         if stage.live_error:
             broken.append({'what': 'live parameter unreadable', 'detail': stage.live_error})
-        for b in stage.broken:
+        for b in sorted(stage.broken, key=lambda b: not b.get('primary', False)):
             broken.append({'what': 'theorem %s' % b['name'], 'detail': b['why']})
         for h in stage.forbidden_hits:
             broken.append({'what': 'forbidden construct', 'detail': h})
